@@ -460,15 +460,15 @@ Proof.
   - rewrite Eq. eapply relpath_below; eauto.
 Qed.
 
-Lemma find_spec c root t p q :
+Lemma find_in_spec c root w p q :
   starts_with [SLASH] root = true ->
-  (find_location c root t p = FFound q <->
-   safe_join root p = Some q /\ In q (world root t) /\ exposable c (relpath q root)).
+  (find_in c root w p = FFound q <->
+   safe_join root p = Some q /\ In q w /\ exposable c (relpath q root)).
 Proof.
-  intros Habs. unfold find_location. rewrite Habs. cbn [negb].
+  intros Habs. unfold find_in. rewrite Habs. cbn [negb].
   destruct (safe_join root p) as [q'|] eqn:Esj.
   - split.
-    + destruct (path_exists (world root t) q' && is_path_valid c (relpath q' root)) eqn:E; [|discriminate].
+    + destruct (path_exists w q' && is_path_valid c (relpath q' root)) eqn:E; [|discriminate].
       intros [= <-]. apply andb_true_iff in E as [E1 E2]. split; [reflexivity|]. split.
       * apply path_exists_spec. exact E1.
       * apply is_path_valid_spec. exact E2.
@@ -477,13 +477,32 @@ Proof.
   - split; [discriminate|]. intros [H _]. discriminate.
 Qed.
 
+Lemma find_spec c root t p q :
+  starts_with [SLASH] root = true ->
+  (find_location c root t p = FFound q <->
+   safe_join root p = Some q /\ In q (world root t) /\ exposable c (relpath q root)).
+Proof. apply find_in_spec. Qed.
+
+Lemma find_in_suspicious c root w p :
+  starts_with [SLASH] root = true ->
+  (find_in c root w p = FSuspicious <-> safe_join root p = None).
+Proof.
+  intros Habs. unfold find_in. rewrite Habs. cbn [negb].
+  destruct (safe_join root p) as [q'|]; [|tauto].
+  destruct (path_exists w q' && is_path_valid c (relpath q' root)); split; discriminate.
+Qed.
+
 Lemma find_suspicious c root t p :
   starts_with [SLASH] root = true ->
   (find_location c root t p = FSuspicious <-> safe_join root p = None).
+Proof. apply find_in_suspicious. Qed.
+
+Lemma find_in_modelled c root w p :
+  starts_with [SLASH] root = true -> find_in c root w p <> FUnmodelled.
 Proof.
-  intros Habs. unfold find_location. rewrite Habs. cbn [negb].
-  destruct (safe_join root p) as [q'|]; [|tauto].
-  destruct (path_exists (world root t) q' && is_path_valid c (relpath q' root)); split; discriminate.
+  intros Habs. unfold find_in. rewrite Habs. cbn [negb].
+  destruct (safe_join root p) as [q'|]; [|discriminate].
+  destruct (path_exists w q' && is_path_valid c (relpath q' root)); discriminate.
 Qed.
 
 (* ================================================================================================ *)
